@@ -12,6 +12,7 @@ def run(prog, chk):
     algorithm_id_narrowing(prog, chk)
     shape_table(prog, chk)
     rfc3161_table(prog, chk)
+    rfc3161_index_table(prog, chk)
     _run(prog, chk)
 
 
@@ -207,3 +208,43 @@ def rfc3161_table(prog, chk):
             what = "expected steps (TST prefix, input hash, TST suffix, %#x) then (attribute prefix, first result, attribute suffix, %#x), the second result re-labelled; source: status %s, steps %s, re-labelled %s" % (
                 tst, attr, q.ret, steps, created)
         chk.ob("C01.rfc3161", inst, ok, what, loc=fn.loc(), fn=fn, nontrivial=(tst != attr))
+
+
+def rfc3161_index_table(prog, chk):
+    """rfc3161_verifyChainIndex: the record's chain index EQUALS the first aggregation chain's (same length, same values in order).
+    Evaluated over pairs of index lists: equal, record a strict prefix, record longer, one element different (first / last), both
+    empty, no record at all."""
+    from ksirules.interp import TOP, Interp, Ptr, list_overrides, succeed_model
+    from ksirules.model import AnalysisBroken
+    chk.rule("C01.rfc3161index", "RFC3161 record: chain index equal to the first chain's, not a prefix or an extension of it (decision table)", floor=8)
+    fn = prog.fn("rfc3161_verifyChainIndex", "verification_rule.c")
+    cp, sp = [p["n"] for p in fn.params]
+    cases = [([3, 2], [3, 2], True), ([3, 2], [3], False), ([3], [3, 2], False), ([3, 2], [3, 5], False), ([3, 2], [7, 2], False), ([3], [3], True), ([], [], True),
+             ([3, 2, 9], [3, 2], False), ([3, 2, 9], [3], False), ([1 << 40], [(1 << 40) + (1 << 33)], False), ([3], None, True)]
+    for chain, rec, want_ok in cases:
+        vals = {}
+        lists = {"CHAINIDX": [], "RECIDX": [], "CHAINS": [Ptr("FIRST")]}
+        for name, seq in (("CHAINIDX", chain), ("RECIDX", rec or [])):
+            for k, v in enumerate(seq):
+                nm = "%s%d" % (name[0], k)
+                vals[nm] = v
+                lists[name].append(Ptr(nm))
+        length, element_at = list_overrides(lists)
+
+        def cmp_(I, p, node, args):
+            a, b = (vals.get(getattr(x, "what", None)) for x in args[:2])
+            return TOP if a is None or b is None else (a > b) - (a < b)
+        ov = {"KSI_IntegerList_length": length, "KSI_IntegerList_elementAt": element_at, "KSI_AggregationHashChainList_elementAt": element_at,
+              "KSI_AggregationHashChainList_length": length, "KSI_Integer_compare": cmp_, "KSI_Integer_equals": lambda I, p, n, a: int(cmp_(I, p, n, a) == 0),
+              "KSI_Integer_getUInt64": lambda I, p, n, a: vals.get(getattr(a[0], "what", None), TOP)}
+        inputs = {cp: Ptr("ctx"), sp: Ptr("SIG"), "SIG->rfc3161": Ptr("REC") if rec is not None else 0, "SIG->aggregationChainList": Ptr("CHAINS"), "FIRST->chainIndex": Ptr("CHAINIDX"),
+                  "REC->chainIndex": Ptr("RECIDX")}
+        I = Interp(fn, inputs=inputs, call_model=succeed_model(prog, ov), on_unknown="stop", prog=prog, loop_bound=8)
+        paths = I.run()
+        chk.paths += len(paths)
+        inst = "rfc3161 chain index[first chain %s, record %s]" % (chain, "absent" if rec is None else rec)
+        if len(paths) != 1 or paths[0].undetermined or paths[0].ret is TOP:
+            raise AnalysisBroken("rfc3161_verifyChainIndex: evaluation not determined for %s: %s" % (inst, [q.undetermined[:1] for q in paths]))
+        got = paths[0].ret
+        chk.ob("C01.rfc3161index", inst, (got == 0) == want_ok, "expected %s, source returns %s" % ("KSI_OK" if want_ok else "a mismatch error", hex(got) if isinstance(got, int) else got),
+               loc=fn.loc(), fn=fn, nontrivial=not want_ok)
